@@ -55,6 +55,8 @@ def plan(tier, seed):
     heavy += [{'cls': 'oversize', 'n': 21000, 'entry': 'build', 'dest_exists': False}, {'cls': 'oversize', 'n': 24000, 'entry': 'build', 'dest_exists': True}]
     heavy += [{'cls': 'repetitive_big', 'n': n} for n in ((20000,) if tier == 'quick' else (20000, 40000, 65535))]
     heavy += [{'cls': 'repetitive_big', 'n': 20000, 'unit': 0}, {'cls': 'repetitive_big', 'n': 30000, 'unit': 2}]
+    # (carts of every old version number whose code fits only compressed)
+    heavy += [{'cls': 'repetitive_big', 'n': 18000 + 500 * v, 'unit': 1, 'cart_version': v} for v in (1, 2, 3, 4, 5, 7)]
     if tier == 'thorough':
         heavy = heavy + [dict(h) for h in heavy if h['cls'] in ('incompressible', 'near_compressed')]
     nsh = 16
@@ -208,6 +210,8 @@ def run_case(ctx, rng, c, workdir):
     cls = c['cls']
     regions, mode = carts.random_regions(rng)
     version = 0 if cls == 'version0' else rng.choice((1, 5, 8, 33, 255, rng.randint(1, 255)))
+    if 'cart_version' in c:
+        version = c['cart_version']
     code = c.get('code') if c.get('code') is not None else make_code(rng, c)
     dest_exists = c.get('dest_exists', rng.random() < 0.5)
     entry = c.get('entry', 'stream' if cls == 'stream_entry' else 'convert' if cls == 'convert' else
